@@ -1451,7 +1451,8 @@ class _RawSocketMixin:
     def _wait_until_readable(self, loop: asyncio.AbstractEventLoop) -> asyncio.Future:
         def callback(f: object) -> None:
             del self._receive_future
-            loop.remove_reader(self.__raw_socket)
+            if not self._closing:
+                loop.remove_reader(self.__raw_socket)
 
         f = self._receive_future = asyncio.Future()
         loop.add_reader(self.__raw_socket, f.set_result, None)
@@ -1461,7 +1462,8 @@ class _RawSocketMixin:
     def _wait_until_writable(self, loop: asyncio.AbstractEventLoop) -> asyncio.Future:
         def callback(f: object) -> None:
             del self._send_future
-            loop.remove_writer(self.__raw_socket)
+            if not self._closing:
+                loop.remove_writer(self.__raw_socket)
 
         f = self._send_future = asyncio.Future()
         loop.add_writer(self.__raw_socket, f.set_result, None)
@@ -1472,6 +1474,16 @@ class _RawSocketMixin:
         if not self._closing:
             self._closing = True
             if self.__raw_socket.fileno() != -1:
+                # Stop watching the socket before closing it: the event loop must not
+                # be left with (or be asked to modify) a registration for a closed
+                # file descriptor, and uvloop defers the close while one exists
+                loop = get_running_loop()
+                if self._receive_future is not None:
+                    loop.remove_reader(self.__raw_socket)
+
+                if self._send_future is not None:
+                    loop.remove_writer(self.__raw_socket)
+
                 self.__raw_socket.close()
 
             if self._receive_future and not self._receive_future.done():
